@@ -13,7 +13,7 @@ def run(ctx):
     ctx.outside += ["working directory different from the root (excluded by the statement)", "trees outside the pool family"]
     T = 300 if ctx.quick() else 1500
     jobs = []
-    cfgs = (0, 2) if ctx.quick() else (0, 1, 2, 3)
+    cfgs = (0, 2, 4) if ctx.quick() else (0, 1, 2, 3, 4)
     for c in cfgs:
         for a in range(6):
             jobs.append(Job("c11.py", "h_check", {"cfg": c, "arg": a, "quiet_fixed": ctx.quick()}, T, 60, tag=f"check cfg{c} reached-as#{a}", meta={"sigtag": "check-vs-scan", "tolerant": True, "twin": c == 0 and a == 0}))
